@@ -31,7 +31,7 @@ const imp = "From Sdfx Require Import Sdf.C04Corr.\nOpen Scope float_scope."
 type corpusPoly struct {
 	Name   string       `json:"name"`
 	V      [][2]float64 `json:"v"`
-	Points [][2]float64 `json:"points"` // replayed in addition to the grid
+	Points [][2]float64 `json:"points"`      // replayed in addition to the grid
 	Only   bool         `json:"only_points"` // evaluate the listed points only (inputs of known findings: a fixed key set)
 }
 
@@ -270,7 +270,7 @@ func genPolys(rng *Rng, tier string) []poly {
 			ps = append(ps, poly{name: name + "/cw", family: family + "/cw", v: reverse(v), exact: exact})
 		}
 	}
-	reps := TierN(tier, 1, 8, 3)
+	reps := TierN(tier, 1, 5, 3)
 	for rep := 0; rep < reps; rep++ {
 		tag := fmt.Sprintf("#%d", rep)
 		// ---- stars (the family of the known defect), irrational, dyadic and far-offset coordinates
@@ -536,9 +536,9 @@ func check(c *Ctx, r *Report) error {
 	}
 	polys = append(polys, genPolys(rng, c.Tier)...)
 
-	gridCap := TierN(c.Tier, 30000, 400000, 120000)
-	nRandom := TierN(c.Tier, 1500, 20000, 6000)
-	coqPts := TierN(c.Tier, 48, 300, 60)
+	gridCap := TierN(c.Tier, 30000, 150000, 120000)
+	nRandom := TierN(c.Tier, 1500, 10000, 6000)
+	coqPts := TierN(c.Tier, 48, 120, 60)
 	pid := 0 // global point id
 	signDis, valDis, certBad := 0, 0, 0
 	seenKey := map[string]bool{}
@@ -801,14 +801,16 @@ func check(c *Ctx, r *Report) error {
 	r.Coverage["sign_disagreements"] = signDis
 	r.Coverage["value_disagreements"] = valDis
 	r.Coverage["clip_assignment_failures"] = certBad
-	r.Rule = "polygon families (stars incl. the 10-vertex star of the known defect, convex, rectilinear with collinear/horizontal/vertical edges, combs, thin, 200-gons, shapes with vertices on the quadtree centre lines; each in both orientations; dyadic, irrational and far-offset coordinates) x query points = full grid {vertex and cut-point xs, every quadtree box edge and centre x, bounding box xs, far} x {same for y} (subsampled per row above the tier's cap), one ulp above/below every vertex level, random points. Oracles per point: sign(quadtree) = sign(brute force) = exact crossing-number sign (rational arithmetic; skipped only where the exact distance is 0 within 1e-12*scale), | |fast|-|slow| | <= 1e-12 relative, |value| vs exact distance. non-trivial = every case; distinct by polygon hash and exact point bits."
+	r.Rule = "polygon families (stars incl. the two stars of the repaired defects, convex, rectilinear with collinear/horizontal/vertical edges, combs, thin, 200-gons, shapes with vertices on the quadtree centre lines and with edges lying exactly ON centre and level-2 split lines; both orientations; dyadic, irrational and far-offset coordinates) x query points = full grid {vertex and cut-point xs, every quadtree box edge and centre x, bounding box xs, far (10 and 1e6 sizes away)} x {same for y} (rows kept, columns subsampled above the tier's cap), one ulp above/below every vertex level, random points. Oracles per point: sign(quadtree) = sign(brute force) = exact crossing-number sign (rational arithmetic; skipped only where the exact distance is <= 1e-12*scale), | |fast|-|slow| | <= 1e-12 relative + 1e-13*scale, |value| vs exact distance (1e-12 relative + 1e-12*scale). non-trivial = every case; distinct by polygon hash and exact point bits."
 	r.Trusted = append(r.Trusted,
-		"hand model coq/Sdf/Poly.v tied by differential execution at FOps: the model of Mesh2D/qtBuild/lineIntersect rebuilds the dumped quadtree bit for bit, eval_fast/eval_slow reproduce Evaluate (sign exactly, value within fclose)",
+		"hand model coq/Sdf/Poly.v tied by differential execution at FOps: the model of Mesh2D/qtBuild/lineIntersect/tAppend/Snap rebuilds the dumped quadtree of every tested polygon bit for bit; eval_fast on the dumped tree and eval_slow on the segments reproduce Evaluate (sign exactly, value within fclose; absolute 2^-40*scale on the boundary)",
 		"quadtree dump hook sdf/verif_hooks_c04.go (copies the private fields)",
-		"piece-to-segment assignment passed to well_clipped_check is an untrusted hint; the checker verifies it")
+		"the piece-to-segment assignment passed to well_clipped_check is an untrusted hint; the checker verifies it",
+		"certificate execution: chain_check/box_check/nondeg_b at exact rationals, perm_check/ray_check/owner_check (comparisons only) at primitive floats, whose comparisons are exact on finite values")
 	r.Assumptions = append(r.Assumptions,
-		"simple polygons; 'crossing number <> 0 iff enclosed' (Jordan) is not proved, the crossing number with exact cross products is taken as the specification of inside",
+		"simple polygons; 'crossing number <> 0 iff enclosed' (Jordan curve theorem) is not proved: the crossing number with exact cross products is taken as the specification of inside",
 		"float64 rounding is not covered by the real-number theorems; measured on every run against exact rationals",
-		"well_clipped holds exactly (tolerance 0) only where cut points are exact (axis-parallel edges); elsewhere it is checked with tolerance 1e-9*scale")
+		"C04_fast_eq_slow needs the certificate at tolerance 0. On dumped float trees the tolerance 0 winding certificate holds where the cut points are exact (axis-parallel edges, no vertex within 1e-9 of a split line; counted in the evidence) and is required for the fixed shapes square, L, plus; the box part never holds exactly (centre + halfSide differs from the box edge by rounding) and is checked with slack 2^-40*scale, as are interior cut points and Snap-moved vertices",
+		"polygons with a vertex within the clipping tolerance 1e-9 of a split line but not on it are outside the class where fast = slow is claimed (known finding, corpus near-split-vertex-5e-10)")
 	return nil
 }
